@@ -1,43 +1,293 @@
-import LabtechModel.Proofs.Workers
+import LabtechModel.Proofs.IntrDrain
 /-!
-# C14 — One Ctrl-C drains the run gracefully; a second one stops it at once  (interim obligations)
+# C14 — one Ctrl-C drains the run gracefully; a second one stops it at once
 
-The statement-level interrupt model (M10: prefixes of primitive lists, handler and double-interrupt
-streams, refinement to `Lt.iteration`) is being built in `Model/Intr.lean`; until it is merged this
-file carries the facts about the handler's two runner operations that the coarse model can state.
+Model: `Model/Intr.lean` (M10). `Proofs/IntrRefine.lean` proves that M10 executed without an
+interrupt IS the validated coarse model (`prims_refine_iteration`, `run_refine`). An interrupt
+instant is an index `k` into the main loop's primitive stream (`∀ k` = "every interrupt instant"),
+a second interrupt an index `k2 = some m` into the first handler's stream (`m = 0`: before the
+first `cancel` step; the handler logs inside its inner `try`, so every `m` leads to the second
+handler). `m ≥` the handler's length = the second interrupt arrived after the handler was done:
+same as no second interrupt.
+
+`interrupt_before_loop` / `interrupt_in_finally`: an interrupt during planning (before the guarded
+region) or inside `finally` changes no modelled state and propagates; nothing to prove in M10.
 -/
-namespace Lt.Props.C14
-open Lt
+namespace Lt
 
-/-- `runner.cancel()` for the process runners: every queued future is cancelled and dropped, running
-    processes are untouched -/
-def cancel (rs : RS) : RS := { rs with queued := [] }
+variable (cfg : Config) (p : Problem) (store : Store) (fuel : Nat) (sched ds : List Choice)
 
-/-- `runner.stop()`: every running process is terminated and its future cancelled -/
-def stop (rs : RS) : RS := { rs with running := [] }
+/-- A single interrupt at ANY instant `k` before the run completed: `run_tasks` leaves by
+    `raise KeyboardInterrupt` (`interrupted`), or is still draining when the given drain schedule
+    ends (`waiting`: the handler is still inside `while runner.pending_task_count() > 0`; that a
+    fair, long enough drain schedule excludes it is NOT proved here — C11's liveness argument at
+    loop heads applies to the drain rounds but has not been transferred to M10). It never returns normally and
+    the handler's bookkeeping never hits `KeyError`. The only other exit: a task FAILS during the
+    drain and `continue_on_failure` is off — then the handler raises `LabError`. -/
+theorem single_interrupt_raises_interrupt (k : Nat) (hk : k < (mainOf cfg p store fuel sched).length) :
+    (interruptedRun cfg p store fuel sched k ds none).outcome = .interrupted ∨
+    (interruptedRun cfg p store fuel sched k ds none).outcome = .waiting ∨
+      (cfg.contOnFail = false ∧
+        ∃ t, (interruptedRun cfg p store fuel sched k ds none).outcome = .raised (.labError t)) := by
+  have hk' : k < (mainStream cfg p (reqTids p) sched (initIS cfg p store fuel)).length := hk
+  simp only [interruptedRun, hk', if_true]
+  have hq := handler_Q (cfg := cfg) (p := p) (reqTids p) ds _ (stateAt_Q (cfg := cfg) (p := p) store fuel sched k)
+    (handlerPrims cfg p (reqTids p) ds (stateAt cfg p store fuel sched k)).length
+  have hl := handler_LabOK (cfg := cfg) (p := p) (reqTids p) ds _ (stateAt_LabOK (cfg := cfg) (p := p) store fuel sched k)
+    (handlerPrims cfg p (reqTids p) ds (stateAt cfg p store fuel sched k)).length
+  rw [take_all] at hq hl
+  exact handlerOutcome_cases _ _ hq.1 hl
 
-theorem takeN_nil0 {α} (n : Nat) : (takeN n ([] : List α)) = ([], []) := by
-  cases n <;> rfl
+theorem single_interrupt_never_returns_nor_keyerror (k : Nat)
+    (hk : k < (mainOf cfg p store fuel sched).length) :
+    (interruptedRun cfg p store fuel sched k ds none).outcome ≠ .returned ∧
+    (interruptedRun cfg p store fuel sched k ds none).outcome ≠ .raised .keyError := by
+  rcases single_interrupt_raises_interrupt cfg p store fuel sched ds k hk with h | h | ⟨_, t, h⟩ <;>
+    rw [h] <;> simp
 
-/-- after `cancel` no process is ever started again by `_start_processes`, whatever happens to the
-    running ones: nothing is queued -/
-theorem no_start_after_cancel (cfg : Config) (rs : RS) :
-    (startProcesses cfg (cancel rs)).running = (cancel rs).running ∧
-    (startProcesses cfg (cancel rs)).trace = (cancel rs).trace := by
-  simp [startProcesses, cancel, takeN_nil0]
+/-- A second interrupt at ANY instant `m` of the first handler: `KeyboardInterrupt` again — never a
+    normal return, never `KeyError`, and no waiting (the outcome is not `waiting` whatever the drain
+    schedule); only a task failure seen by the single last processing round, with
+    `continue_on_failure` off, turns into `LabError`. -/
+theorem double_interrupt_raises_interrupt (k m : Nat) (hk : k < (mainOf cfg p store fuel sched).length)
+    (hm : m < (handlerPrims cfg p (reqTids p) ds (stateAt cfg p store fuel sched k)).length) :
+    (interruptedRun cfg p store fuel sched k ds (some m)).outcome = .interrupted ∨
+      (cfg.contOnFail = false ∧
+        ∃ t, (interruptedRun cfg p store fuel sched k ds (some m)).outcome = .raised (.labError t)) := by
+  rw [interruptedRun_double store fuel sched ds k m hk hm]
+  have hq := handler_Q (cfg := cfg) (p := p) (reqTids p) ds _
+    (stateAt_Q (cfg := cfg) (p := p) store fuel sched k) m
+  have hl := handler_LabOK (cfg := cfg) (p := p) (reqTids p) ds _
+    (stateAt_LabOK (cfg := cfg) (p := p) store fuel sched k) m
+  exact handlerOutcome_true_cases _ (second_Q (reqTids p) _ hq).1 (second_LabOK (reqTids p) _ hl)
 
-/-- … and that stays true through any number of drain rounds: a drain round (wait + processing of the
-    yields, no submit phase) never enqueues -/
-theorem drain_round_keeps_queue_empty (cfg : Config) (p : Problem) (req : List Tid) (c : Choice) (rs : RS)
-    (h : rs.queued = []) : (waitProcess cfg p req c rs).queued = [] := by
-  simp only [waitProcess]
-  rw [processYields_queued]
-  simp [startProcesses, h, takeN_nil0]
+/-- No task is submitted and no worker is started after the (first) interrupt — with or without a
+    second interrupt, at any instants: the trace only grows, and what it gains contains no
+    `Ev.start` and no `Ev.submit`. (The serial runner's `run()` in the caller counts as a start.) -/
+theorem no_start_after_interrupt (k : Nat) (k2 : Option Nat)
+    (hk : k < (mainOf cfg p store fuel sched).length) :
+    ∃ l, (interruptedRun cfg p store fuel sched k ds k2).final.rs.trace =
+        (interruptedRun cfg p store fuel sched k ds k2).atIntr.rs.trace ++ l ∧
+      ∀ e ∈ l, (∀ t, e ≠ Ev.start t) ∧ (∀ t uc, e ≠ Ev.submit t uc) := by
+  have single : ∃ l, (interruptedRun cfg p store fuel sched k ds none).final.rs.trace =
+        (interruptedRun cfg p store fuel sched k ds none).atIntr.rs.trace ++ l ∧
+      ∀ e ∈ l, (∀ t, e ≠ Ev.start t) ∧ (∀ t uc, e ≠ Ev.submit t uc) := by
+    rw [interruptedRun_single store fuel sched ds k hk]
+    obtain ⟨l, h1, h2⟩ := handler_trace (cfg := cfg) (p := p) (reqTids p) ds
+      (stateAt cfg p store fuel sched k)
+      (handlerPrims cfg p (reqTids p) ds (stateAt cfg p store fuel sched k)).length
+    rw [take_all] at h1
+    exact ⟨l, h1, fun e he => evLaunch_false e (h2 e he)⟩
+  cases k2 with
+  | none => exact single
+  | some m =>
+    by_cases hm : m < (handlerPrims cfg p (reqTids p) ds (stateAt cfg p store fuel sched k)).length
+    · rw [interruptedRun_double store fuel sched ds k m hk hm]
+      obtain ⟨l1, h1, h1'⟩ := handler_trace (cfg := cfg) (p := p) (reqTids p) ds
+        (stateAt cfg p store fuel sched k) m
+      obtain ⟨l2, h2, h2'⟩ := second_trace (cfg := cfg) (p := p) (reqTids p)
+        (runPrims cfg p ((handlerPrims cfg p (reqTids p) ds (stateAt cfg p store fuel sched k)).take m)
+          (stateAt cfg p store fuel sched k))
+      refine ⟨l1 ++ l2, ?_, ?_⟩
+      · simp only; rw [h2, h1, List.append_assoc]
+      · intro e he
+        rcases List.mem_append.mp he with he | he
+        · exact evLaunch_false e (h1' e he)
+        · exact evLaunch_false e (h2' e he)
+    · rw [interruptedRun_late store fuel sched ds k m hk hm]; exact single
 
-/-- `stop` leaves no running process, so the single processing round that follows has nothing to wait for -/
-theorem stop_leaves_nothing_running (rs : RS) : (stop rs).running = [] := rfl
+/-- The cache is left consistent: whatever the interrupt instants (any `k`, any `k2`, also an
+    uninterrupted run), every store entry at exit either was there before the run or is the value
+    that a recorded execution of that very task's `run()` computed (and the task type is
+    cacheable): no foreign and no invented entries. (Torn files are the subject of C13.) -/
+theorem store_consistent (k : Nat) (k2 : Option Nat) (t : Tid) (v : Val)
+    (h : (t, v) ∈ (interruptedRun cfg p store fuel sched k ds k2).final.rs.store) :
+    (t, v) ∈ store ∨
+    (p.cacheable (p.ty t) = true ∧
+      ∃ seen, Ev.exec t seen ∈ (interruptedRun cfg p store fuel sched k ds k2).final.rs.trace ∧
+        p.behave t seen = some v) := by
+  have key : SI p store (interruptedRun cfg p store fuel sched k ds k2).final := by
+    have h0 := SI_init (cfg := cfg) (p := p) store fuel
+    unfold interruptedRun
+    simp only
+    split
+    · split
+      · split
+        · exact runPrims_SI _ _ _ (runPrims_SI _ _ _ (runPrims_SI _ _ _ h0))
+        · exact runPrims_SI _ _ _ (runPrims_SI _ _ _ h0)
+      · exact runPrims_SI _ _ _ (runPrims_SI _ _ _ h0)
+    · exact runPrims_SI _ _ _ h0
+  exact key.1 t v h
 
-example : (cancel { ts := {}, queued := [⟨1, false, none⟩], running := [⟨0, false, none⟩] }).queued = [] ∧
-    (stop { ts := {}, running := [⟨0, false, none⟩] }).running = [] := ⟨rfl, rfl⟩
+/-!
+## Workers that were executing at the interrupt
 
-end Lt.Props.C14
+FULL STATEMENT (false — finding F14a, `untracked_worker_after_interrupt_between_start_and_tracking`):
+  `drain_waits_for_running`: for every `k < length`, with no second interrupt, if the handler leaves
+  by `KeyboardInterrupt` then no worker process is alive at exit.
+It fails for `k` in the submit path between `process.start()` and `future_to_task[future] = task`
+(`procStart j` … `regFuture t`): the worker exists, but is not (yet) in the running map, or is in it
+without being in `future_to_task`, so `while pending_task_count() > 0` does not wait for it.
+Witnesses: `finding_untracked_worker_*` below. What IS proved: from every interrupt instant at
+which every live worker is tracked (`Tr`: in the running map, its future in `future_to_task`,
+uncancelled, unfinished — true inside the wait/processing phase), the drain loop's exit implies
+that nobody is alive, and everyone who was alive ran to completion (its record is in the trace;
+the model applies a worker's save in the same atomic step that consumes its report) or died by
+itself. (`terminated` is only ever extended by `stopOne`, which the first handler does not emit.)
+-/
+
+/-- `drain_waits_for_running`, proved part: hypothesis `Tr` at the interrupt instant. -/
+theorem drain_waits_for_running_partial (k : Nat) (hk : k < (mainOf cfg p store fuel sched).length)
+    (htr : Tr cfg (stateAt cfg p store fuel sched k))
+    (hout : (interruptedRun cfg p store fuel sched k ds none).outcome = .interrupted) :
+    (interruptedRun cfg p store fuel sched k ds none).final.alive = [] ∧
+    ∀ t ∈ (stateAt cfg p store fuel sched k).alive,
+      t ∈ (interruptedRun cfg p store fuel sched k ds none).final.terminated ∨ p.dies t = true ∨
+      t ∈ ranOf (interruptedRun cfg p store fuel sched k ds none).final.rs.trace := by
+  rw [interruptedRun_single store fuel sched ds k hk] at hout ⊢
+  simp only at hout ⊢
+  have hT := (always_Tr_handler (cfg := cfg) (p := p) (reqTids p) ds _ htr).last
+  obtain ⟨hd, _⟩ := handlerOutcome_interrupted _ _ hout
+  have hf : (runPrims cfg p (handlerPrims cfg p (reqTids p) ds (stateAt cfg p store fuel sched k))
+      (stateAt cfg p store fuel sched k)).rs.futs = [] := by
+    simpa [List.isEmpty_iff] using hd
+  have hal := hT.no_alive_of_drained hf
+  refine ⟨hal, ?_⟩
+  intro t ht
+  have hacc := runPrims_Acc (cfg := cfg) (p := p) (stateAt cfg p store fuel sched k).alive
+    (handlerPrims cfg p (reqTids p) ds (stateAt cfg p store fuel sched k)) _ (fun t ht => Or.inl ht)
+  rcases hacc t ht with h | h
+  · rw [hal] at h; simp at h
+  · exact h
+
+/-- `double_interrupt_stops`, proved part (same hypothesis `Tr` at the first interrupt; the FULL
+    STATEMENT without it is false for the same windows, witness `finding_untracked_worker_double`):
+    a second interrupt at any instant `m` of the first handler that ends in `KeyboardInterrupt`
+    leaves nobody alive — every worker alive at the first interrupt was terminated by `stop()`,
+    or had reported / died before. By construction (`secondPrims`,
+    `double_interrupt_one_last_round`) nothing but `cancel`, `stop` and ONE processing round
+    follows the second interrupt, and `double_interrupt_raises_interrupt` shows the outcome is
+    never `waiting`. -/
+theorem double_interrupt_stops_partial (k m : Nat) (hk : k < (mainOf cfg p store fuel sched).length)
+    (hm : m < (handlerPrims cfg p (reqTids p) ds (stateAt cfg p store fuel sched k)).length)
+    (htr : Tr cfg (stateAt cfg p store fuel sched k))
+    (hout : (interruptedRun cfg p store fuel sched k ds (some m)).outcome = .interrupted) :
+    (interruptedRun cfg p store fuel sched k ds (some m)).final.alive = [] ∧
+    ∀ t ∈ (stateAt cfg p store fuel sched k).alive,
+      t ∈ (interruptedRun cfg p store fuel sched k ds (some m)).final.terminated ∨ p.dies t = true ∨
+      t ∈ ranOf (interruptedRun cfg p store fuel sched k ds (some m)).final.rs.trace := by
+  rw [interruptedRun_double store fuel sched ds k m hk hm] at hout ⊢
+  simp only at hout ⊢
+  have hT1 := (always_Tr_handler (cfg := cfg) (p := p) (reqTids p) ds _ htr).prefix m
+  obtain ⟨_, hnr⟩ := handlerOutcome_interrupted _ _ hout
+  -- the state at the second interrupt is running: otherwise the second handler changes nothing
+  have hnoret : NoRet (runPrims cfg p
+      ((handlerPrims cfg p (reqTids p) ds (stateAt cfg p store fuel sched k)).take m)
+      (stateAt cfg p store fuel sched k)) := by
+    apply runPrims_NoRet
+    apply runPrims_NoRet
+    intro r hr; simp [initIS, initRS] at hr
+  have hrun1 : (runPrims cfg p ((handlerPrims cfg p (reqTids p) ds (stateAt cfg p store fuel sched k)).take m)
+      (stateAt cfg p store fuel sched k)).rs.status = .running := by
+    cases hs : (runPrims cfg p ((handlerPrims cfg p (reqTids p) ds (stateAt cfg p store fuel sched k)).take m)
+      (stateAt cfg p store fuel sched k)).rs.status with
+    | running => rfl
+    | returned r => exact absurd hs (hnoret r)
+    | raised e =>
+      exfalso
+      apply hnr e
+      rw [runPrims_stopped _ _ (by rw [hs]; simp)]
+      exact hs
+  have hal := second_no_alive (cfg := cfg) (p := p) (reqTids p) _ hT1 hrun1
+  refine ⟨hal, ?_⟩
+  intro t ht
+  have hacc := runPrims_Acc (cfg := cfg) (p := p) (stateAt cfg p store fuel sched k).alive
+    (secondPrims cfg p (reqTids p) (runPrims cfg p
+      ((handlerPrims cfg p (reqTids p) ds (stateAt cfg p store fuel sched k)).take m)
+      (stateAt cfg p store fuel sched k))) _
+    (runPrims_Acc (cfg := cfg) (p := p) (stateAt cfg p store fuel sched k).alive
+      ((handlerPrims cfg p (reqTids p) ds (stateAt cfg p store fuel sched k)).take m)
+      (stateAt cfg p store fuel sched k) (fun t ht => Or.inl ht))
+  rcases hacc t ht with h | h
+  · rw [hal] at h; simp at h
+  · exact h
+
+/-- after the second interrupt: `cancel()`, `stop()`, one `process_completed_tasks()`, nothing else -/
+theorem double_interrupt_one_last_round (s : IS) :
+    ∃ c0 st, secondPrims cfg p (reqTids p) s = c0 ++ st ++ waitPrims cfg p (reqTids p) noWait
+        (runPrims cfg p st (runPrims cfg p c0 s)) ∧
+      c0 = cancelPrims cfg s ∧ st = stopPrims cfg (runPrims cfg p c0 s) :=
+  ⟨_, _, rfl, rfl, rfl⟩
+
+/-! ## non-vacuity and the finding's witnesses: two independent tasks and one that needs both -/
+def c14P : Problem where
+  tidOf := fun i => i
+  children := fun i => if i = 2 then [0, 1] else []
+  requested := [2]
+  ty := fun _ => 0
+  maxPar := fun _ => none
+  cacheable := fun _ => true
+  fails := fun _ => false
+  dies := fun _ => false
+  behave := fun t vs => some (1000 * t + (vs.map (fun o => o.getD 7)).foldl (· + ·) 0)
+
+def c14Cfg : Config := { backend := .fork, maxWorkers := 2, contOnFail := true, bust := false }
+def c14All : Choice := ⟨fun _ => true⟩
+def c14First : Choice := ⟨fun i => i == 0⟩
+def c14Sched : List Choice := [c14All, c14All, c14All, c14All]
+
+/- the main stream (43 primitives): 0 startTask 0, 1 enqueue 0, 2 procStart 0, 3 regRunning 0,
+   4 unregPending 0, 5 regFuture 0, 6..11 the same for task 1, 12 consumeResults, 13 popFuture 0,
+   14 storeResult 0, 15 markInstances 0, 16 removeActive 0, 17 unblockOne 0 2, 18 removeDone, … -/
+example : (mainOf c14Cfg c14P [] 4 c14Sched).length = 43 := by decide
+
+/-- an interrupt between `process.start()` and the registration in the running map (the window in
+    which the drain used to hang, D14): the drain terminates with `KeyboardInterrupt` … -/
+example : (interruptedRun c14Cfg c14P [] 4 c14Sched 9 [c14All, c14All, c14All] none).outcome = .interrupted := by
+  decide
+
+/-- … but FINDING F14a (a): that worker (task 1) is alive at exit, nobody waited for it -/
+theorem finding_untracked_worker_start_window :
+    (interruptedRun c14Cfg c14P [] 4 c14Sched 9 [c14All, c14All, c14All] none).final.alive = [1] := by decide
+
+/-- FINDING F14a (c): interrupt after the worker is in the running map but before
+    `future_to_task[future] = task` (k = 11): `KeyboardInterrupt`, worker 1 still alive -/
+theorem finding_untracked_worker_submit_window :
+    (interruptedRun c14Cfg c14P [] 4 c14Sched 11 [c14First, c14First, c14First] none).outcome = .interrupted ∧
+    (interruptedRun c14Cfg c14P [] 4 c14Sched 11 [c14First, c14First, c14First] none).final.alive = [1] := by
+  decide
+
+/-- FINDING F14a, double interrupt: the worker of the start window is not in the running map, so
+    `stop()` does not terminate it (task 0's worker is terminated, task 1's stays alive) -/
+theorem finding_untracked_worker_double :
+    (interruptedRun c14Cfg c14P [] 4 c14Sched 9 [c14All] (some 0)).outcome = .interrupted ∧
+    (interruptedRun c14Cfg c14P [] 4 c14Sched 9 [c14All] (some 0)).final.alive = [1] ∧
+    (interruptedRun c14Cfg c14P [] 4 c14Sched 9 [c14All] (some 0)).final.terminated = [0] := by decide
+
+/-- an interrupt after `future_to_task.pop(future)` and before `complete_task` (k = 14): the popped
+    task is not yielded again, no `KeyError`; task 1 is still drained and cached -/
+example :
+    (interruptedRun c14Cfg c14P [] 4 c14Sched 14 [c14All, c14All, c14All] none).outcome = .interrupted ∧
+    (interruptedRun c14Cfg c14P [] 4 c14Sched 14 [c14All, c14All, c14All] none).final.alive = [] ∧
+    (interruptedRun c14Cfg c14P [] 4 c14Sched 14 [c14All, c14All, c14All] none).final.rs.store.map (·.1) = [1, 0] := by
+  decide
+
+/-- a double interrupt while both workers run (k = 12, second interrupt before the first drain
+    round): both terminated, nothing cached, `KeyboardInterrupt` -/
+example :
+    (interruptedRun c14Cfg c14P [] 4 c14Sched 12 [c14First, c14First, c14First] (some 0)).outcome = .interrupted ∧
+    (interruptedRun c14Cfg c14P [] 4 c14Sched 12 [c14First, c14First, c14First] (some 0)).final.alive = [] ∧
+    (interruptedRun c14Cfg c14P [] 4 c14Sched 12 [c14First, c14First, c14First] (some 0)).final.terminated = [0, 1] ∧
+    (interruptedRun c14Cfg c14P [] 4 c14Sched 12 [c14First, c14First, c14First] (some 0)).final.rs.store = [] := by
+  decide
+
+/-- the hypothesis `Tr` of the `_partial` theorems is satisfiable at an instant with live workers
+    (k = 12: both workers running, both tracked) … -/
+example : Tr c14Cfg (stateAt c14Cfg c14P [] 4 c14Sched 12) ∧
+    (stateAt c14Cfg c14P [] 4 c14Sched 12).alive = [0, 1] :=
+  ⟨⟨by decide, by decide, by decide, by decide, by decide, by decide, by decide, by decide⟩, by decide⟩
+
+/-- … and fails exactly in the finding's window (k = 9) -/
+example : ¬ Tr c14Cfg (stateAt c14Cfg c14P [] 4 c14Sched 9) := fun h => absurd h.aliveRun (by decide)
+
+end Lt
